@@ -1,4 +1,5 @@
 // families RF (3) and RFSTEP (9): see coq/Run/Rf.v
+use crate::alloc_count::{lib, take_lib};
 use crate::common::*;
 use crate::fam_api::{df_sel, post};
 use crate::with_size;
@@ -6,11 +7,12 @@ use fixed_buffer::*;
 
 fn one_call<const N: usize>(buf: &mut FixedBuf<N>, rd: &mut ScriptReader, which: u64, mode: u64, base: usize, out: &mut Vec<i128>) {
     rd.log.clear();
+    take_lib();
     out.push(MOP);
     if mode == 0 {
         let r = std::panic::catch_unwind(std::panic::AssertUnwindSafe(|| {
             let mut tmp: Vec<i128> = Vec::new();
-            match buf.read_frame(rd, df_sel(which)) {
+            match lib(|| buf.read_frame(rd, df_sel(which))) {
                 Ok(Some(frame)) => {
                     tmp.push(0);
                     tmp.push(1);
@@ -32,7 +34,7 @@ fn one_call<const N: usize>(buf: &mut FixedBuf<N>, rd: &mut ScriptReader, which:
             Err(_) => out.push(PANIC),
         }
     } else {
-        let r = std::panic::catch_unwind(std::panic::AssertUnwindSafe(|| buf.copy_once_from(rd)));
+        let r = std::panic::catch_unwind(std::panic::AssertUnwindSafe(|| lib(|| buf.copy_once_from(rd))));
         match r {
             Ok(q) => enc_io_usize(out, &q),
             Err(_) => out.push(PANIC),
@@ -43,6 +45,10 @@ fn one_call<const N: usize>(buf: &mut FixedBuf<N>, rd: &mut ScriptReader, which:
     out.push((rd.pos - base) as i128);
     out.push(rd.log.len() as i128);
     out.extend(rd.log.iter().map(|x| *x as i128));
+    if std::env::var_os("HSYNC_ALLOCS").is_some() {
+        out.push(MAL);
+        out.push(take_lib() as i128);
+    }
 }
 
 fn rf_sized<const N: usize>(c: &mut Cur, out: &mut Vec<i128>) {
